@@ -408,3 +408,118 @@ Proof.
     + intros a' Ha'. apply (gput_in au_id) in Ha'. destruct Ha' as [->|Ha']; [|exact (il_au _ _ I a' Ha')].
       split; [exact A1|]. exact A2.
 Qed.
+
+(* ---------- the auctionsV2 block tick without an ESM return ---------- *)
+Lemma existsb_false {A} (f : A -> bool) l : existsb f l = false <-> forall x, In x l -> f x = false.
+Proof.
+  induction l as [|y l IH]; cbn [existsb In]; [tauto|]. rewrite orb_false_iff, IH. split.
+  - intros [H1 H2] x [<-|Hx]; [exact H1|exact (H2 x Hx)].
+  - intros H. split; [apply H; left; reflexivity|intros x Hx; apply H; right; exact Hx].
+Qed.
+
+Lemma tick_one_invL c lc l aid l' : InvL c l -> esm_return_due l = false -> tick_one lc l aid = Ok l' ->
+  InvL c l' /\ esm_return_due l' = false.
+Proof.
+  intros I D H. unfold tick_one in H. cbv zeta in H.
+  destruct (find_au (aus l) aid) as [a|] eqn:Ma; [|injection H as <-; split; assumption].
+  destruct (gfind_some au_id _ _ _ Ma) as [Hain Haid].
+  pose proof (proj1 (existsb_false _ _) D a Hain) as Da. cbv beta in Da.
+  destruct (e_status (esm (vs l) (au_app a))) eqn:Es.
+  - destruct (now (vs l) >? au_end a) eqn:Nw; [discriminate Da|]. injection H as <-. split; assumption.
+  - destruct (now (vs l) >? au_end a) eqn:Nw; [|injection H as <-; split; assumption].
+    do 3 exec1 H. injection H as <-. destruct (il_au _ _ I a Hain) as [A1 A2]. split.
+    + constructor.
+      * exact (il_view _ _ I).
+      * exact (il_owner _ _ I).
+      * exact (il_sorted _ _ I).
+      * exact (il_lkid _ _ I).
+      * exact (il_lk _ _ I).
+      * cbn [aus]. intros a' Ha'. apply (gput_in au_id) in Ha'. destruct Ha' as [->|Ha']; [|exact (il_au _ _ I a' Ha')].
+        split; [exact A1|exact A2].
+    + apply existsb_false. intros a' Ha'. cbn [vs aus] in *. apply (gput_in au_id) in Ha'. destruct Ha' as [->|Ha'].
+      * cbn [au_app]. rewrite Es. reflexivity.
+      * exact (proj1 (existsb_false _ _) D a' Ha').
+Qed.
+
+Lemma auc_tick_invL c lc l : InvL c l -> esm_return_due l = false -> InvL c (auc_tick lc l).
+Proof.
+  unfold auc_tick. generalize (map au_id (aus l)) as ids. intros ids. revert l.
+  induction ids as [|aid ids IH]; intros l I D; cbn [fold_left]; [exact I|].
+  destruct (tick_one lc l aid) as [l1| |] eqn:T; cbn [keep].
+  - destruct (tick_one_invL c lc l aid l1 I D T) as [I1 D1]. exact (IH l1 I1 D1).
+  - exact (IH l I D).
+  - exact (IH l I D).
+Qed.
+
+(* ---------- esm: collateral redemption set-up for the vaults of an app ---------- *)
+Lemma gfind_self {A} (key : A -> Z) l v : NoDup (map key l) -> In v l -> gfind key l (key v) = Some v.
+Proof.
+  induction l as [|y l IH]; cbn [map gfind In]; intros Hnd Hin; [destruct Hin|].
+  inversion Hnd as [|? ? Hny Hnd']; subst. destruct Hin as [->|Hin]; [rewrite Z.eqb_refl; reflexivity|].
+  destruct (Z.eqb_spec (key y) (key v)) as [E|E]; [|exact (IH Hnd' Hin)].
+  exfalso. apply Hny. rewrite E. apply in_map. exact Hin.
+Qed.
+
+Lemma esm_redeem_one_invL c lc app l v l' : InvL c l -> find_v (vaults (vs l)) (v_id v) = Some v ->
+  esm_redeem_one c lc app l v = Ok l' ->
+  InvL c l' /\ forall id, id <> v_id v -> find_v (vaults (vs l')) id = find_v (vaults (vs l)) id.
+Proof.
+  intros I M H. pose proof (invL_pe c l I) as PE. pose proof (invL_wf c l I) as W.
+  unfold esm_redeem_one in H. cbv zeta in H.
+  exec1 H; [injection H as <-; split; [exact I|reflexivity]|].
+  do 4 exec1 H. injection H as <-. rename M0 into Mep.
+  apply send_spec in E. destruct E as (_ & b1 & -> & Hb1).
+  pose proof (prods_exist_v _ _ _ PE M) as Hpf. pose proof (vwf_found _ _ _ W M) as (W1 & W2 & W3 & W4).
+  pose proof (denom_in_ep _ _ _ Mep) as Hdi. bool_norm.
+  assert (Happ : v_app v = app) by lia. rewrite <- Happ in *.
+  unfold dec_len. ssimpl.
+  match goal with |- context [prod_del_id ?st ?a0 ?p0 ?m] =>
+    assert (Hpf3 : pfound st a0 p0 = true) by exact Hpf;
+    destruct (prod_del_id_spec st a0 p0 m Hpf3) as (f3 & -> & Hf31 & Hf32 & Hf33 & Hf34) end.
+  ssimpl.
+  match goal with |- context [upd_mint ?st ?a0 ?p0 ?m ?ad] =>
+    assert (Hpf1 : pfound st a0 p0 = true) by (prod_rw; rewrite <- pfound_f; exact Hpf);
+    destruct (upd_mint_spec st a0 p0 m ad Hpf1) as (f1 & -> & Hf11 & Hf12 & Hf13 & Hf14) end.
+  match goal with |- context [upd_coll ?st ?a0 ?p0 ?m ?ad] =>
+    assert (Hpf2 : pfound st a0 p0 = true) by (prod_rw; rewrite <- pfound_f; exact Hpf);
+    destruct (upd_coll_spec st a0 p0 m ad Hpf2) as (f2 & -> & Hf21 & Hf22 & Hf23 & Hf24) end.
+  ssimpl. split.
+  - constructor; cbn [vs lks aus lkid auid]; try apply I.
+    + apply (beffect_inv01 c _ _ (BDel v) (il_view _ _ I)). unfold view. cbn [vs].
+      apply beffect_shift; cbn [bc_pre bc_wf bc_vaults bc_svaults bc_din bc_dout bc_ids bc_pair]; ssimpl; try reflexivity; try exact Logic.I;
+        try exact M.
+      * intros a p. unfold opc_of, lock_coll. cbn [lks er_coll]. unfold pcoll at 1. ssimpl. fold (fcoll f2 a p).
+        rewrite Hf22. ssimpl. rewrite Hf12. ssimpl. rewrite Hf32, <- pcoll_f. unfold touched. cbn [bc_app bc_pair].
+        destruct ((a =? v_app v) && (p =? v_pair v)); lia.
+      * intros a p. unfold opm_of, lock_prin. cbn [lks er_mint drift]. unfold pmint at 1. ssimpl. fold (fmint f2 a p).
+        rewrite Hf23. ssimpl. rewrite Hf13. ssimpl. rewrite Hf33, <- pmint_f. unfold touched. cbn [bc_app bc_pair].
+        destruct ((a =? v_app v) && (p =? v_pair v)); lia.
+      * intros a p. unfold pids at 1. ssimpl. fold (fids f2 a p). rewrite Hf24. ssimpl. rewrite Hf14. ssimpl. rewrite Hf34, <- pids_f.
+        unfold touched. cbn [bc_app bc_pair]. reflexivity.
+      * intros d. unfold oc_of. cbn [er_short]. rewrite Hb1. rewrite Hdi. unfold xfer.
+        change (VAULT =? ESMA) with false. rewrite Z.eqb_refl. cbn [andb]. rewrite (Z.eqb_sym d). destruct (ep_in e =? d); lia.
+    + intros w Hw. apply (gdel_in v_id) in Hw. apply (il_owner _ _ I). exact Hw.
+    + intros k Hk. destruct (il_lk _ _ I k Hk) as (H1 & H2 & H3 & H4). repeat split; try assumption; try lia.
+      cbn [vs]. unfold pfound. ssimpl. fold (ffound f2 (lk_app k) (lk_pair k)). rewrite Hf21. ssimpl. rewrite Hf11. ssimpl. rewrite Hf31. exact H4.
+  - intros id Hid. unfold find_v, del_v. apply (gfind_gdel_other v_id). exact Hid.
+Qed.
+
+Lemma esm_redeem_loop_invL c lc app vl : NoDup (map v_id vl) -> forall l l', InvL c l ->
+  (forall v, In v vl -> find_v (vaults (vs l)) (v_id v) = Some v) ->
+  esm_redeem_loop c lc app vl l = Ok l' -> InvL c l'.
+Proof.
+  induction vl as [|v vl IH]; intros Hnd l l' I HF H; cbn [esm_redeem_loop] in H; [injection H as <-; exact I|].
+  inversion Hnd as [|? ? Hny Hnd']; subst.
+  destruct (esm_redeem_one c lc app l v) as [l1| |] eqn:E1; cbn [obind] in H; try discriminate H.
+  destruct (esm_redeem_one_invL c lc app l v l1 I (HF v (or_introl eq_refl)) E1) as [I1 Hf1].
+  apply (IH Hnd' l1 l' I1); [|exact H]. intros w Hw. rewrite Hf1; [apply HF; right; exact Hw|].
+  intros Eq. apply Hny. rewrite <- Eq. apply in_map. exact Hw.
+Qed.
+
+Lemma esm_redeem_invL c lc l app l' : InvL c l -> esm_redeem c lc l app = Ok l' -> InvL c l'.
+Proof.
+  intros I H. unfold esm_redeem in H.
+  assert (Hnd : NoDup (map v_id (vaults (vs l)))) by (apply sorted_nodup; exact (i_sorted_v _ _ (il_view _ _ I))).
+  apply (esm_redeem_loop_invL c lc app _ Hnd l l' I); [|exact H].
+  intros v Hv. apply (gfind_self v_id); assumption.
+Qed.
